@@ -216,6 +216,11 @@ def main(run, tier):
     run.floor = 40
     from . import printfwd
     printfwd.add(run, tier)
+    # the convenience wrappers of factory.py (contracts/factory.py): es5.pretty_print(source, ...) parses once and hands every positional
+    # and keyword argument but with_comments to the printer unchanged
+    from ..e1run import verify_functions as _vff
+    import contracts.factory as _cfac
+    _vff(run, _cfac.build(importlib.import_module('calmjs.parse.factory')), {}, {}, tier=tier)
     for m in cf.C14['modules']:
         run.function(m, scratch.sha256_file(scratch.module_path(m))[:16])
     frame_obligations(run, cf.C14, 'C14')
